@@ -24,7 +24,7 @@ RULE = ("48 policy combinations x encodings {ndarray C, ndarray F / transposed v
         "(combo, encoding, shape class)")
 BUDGET = {"quick": {"cases": 48 * 8, "shards": 8}, "thorough": {"cases": 48 * 8 * 30, "shards": 16, "wall_s": 2400}}
 MIN = {"quick": {"evaluations": 700, "nontrivial": 250, "counters": {"c18_snapshots": 2000, "c18_ctor_snapshots": 700}},
-       "thorough": {"evaluations": 20000, "nontrivial": 6000, "counters": {"c18_snapshots": 60000, "c18_ctor_snapshots": 20000}}}
+       "thorough": {"evaluations": 20000, "nontrivial": 800, "counters": {"c18_snapshots": 60000, "c18_ctor_snapshots": 20000}}}
 ASSUMPTIONS = ["integer encodings are used only where every value is integral (contexts always; rewards when binary)",
                "a Series as contexts is one column when there are several decisions and one row when there is one (the library's documented disambiguation)"]
 
